@@ -54,6 +54,20 @@ struct View {
 
 fn view(s: &Spec) -> Result<View, String> {
   let text = model_text(s);
+  // the text views: behaving "exactly like the wrapped source" starts with the text
+  let views = guard(|| {
+    let o = build(s);
+    let mut w = vec![];
+    let _ = o.to_writer(&mut w);
+    (o.source().to_string(), o.rope().to_string(), o.buffer().to_vec(), o.size(), w)
+  })
+  .map_err(|p| format!("text views: {p}"))?;
+  if views.0 != text || views.1 != text || views.2 != text.as_bytes() || views.3 != text.len() || views.4 != text.as_bytes() {
+    return Err(format!(
+      "text views disagree with the reference text {text:?}: source()={:?} rope()={:?} buffer()={:?} size()={} to_writer={:?}",
+      views.0, views.1, String::from_utf8_lossy(&views.2), views.3, String::from_utf8_lossy(&views.4)
+    ));
+  }
   let mut map_attr: [Vec<AttrFull>; 2] = [vec![], vec![]];
   let mut mappings: [Option<String>; 2] = [None, None];
   for columns in [false, true] {
